@@ -5,6 +5,10 @@
   predicate on observations made on the real implementation.
 -/
 import Mwp.Wire
+import Mwp.Model.Bound
+import Mwp.Model.DeltaGraph
+import Mwp.Model.Choices
+import Mwp.Spec.BoundText
 open Lean Mwp Mwp.Wire
 
 def ok (v : Json) : Json := Json.mkObj [("ok", v)]
@@ -63,6 +67,147 @@ def checkC09 (j : Json) : R Json := do
   | none => pure ()
   pure (ok Json.null)
 
+
+-- ---------------------------------------------------------------- C20
+def triple (j : Json) : R (List String × List String × List String) := do
+  pure (← strListOf (← field j "x"), ← strListOf (← field j "y"), ← strListOf (← field j "z"))
+
+def rhoOf (j : Json) : R (String → Nat) := do
+  let kvs ← (← fArr j "rho").mapM fun kv => do
+    match ← arrOf kv with
+    | [k, v] => pure (← strOf k, ← natOf v)
+    | _ => throw "bad rho"
+  pure fun n => (kvs.lookup n).getD 0
+
+def boundPolyOp (j : Json) : R Json := do
+  let (x, y, z) ← triple j
+  let compact ← fBool j "compact"
+  let e := Bound.boundPoly (Bound.normNames x) (Bound.normNames y) (Bound.normNames z) compact
+  pure (ok (Json.mkObj [("text", Json.str (String.ofList e.render)),
+    ("str", Json.str (String.ofList (Bound.boundStr (Bound.normNames x) (Bound.normNames y) (Bound.normNames z)))),
+    ("significant", Json.bool (Bound.significantShown ((← fStr j "k")) (Bound.normNames x) (Bound.normNames y) (Bound.normNames z)))]))
+
+def boundParseOp (j : Json) : R Json := do
+  let s ← fStr j "s"
+  pure (ok (jList (jList (fun cs => Json.str (String.ofList cs))) (Bound.parse s.toList)))
+
+/-- C20 predicate: `text` (printed by pymwp for lists x,y,z) must denote max(x⃗,Σy⃗)+Πz⃗ at every given valuation. -/
+def checkC20 (j : Json) : R Json := do
+  let (x, y, z) ← triple j
+  let text ← fStr j "text"
+  let rhos ← fArr j "rhos"
+  for rj in rhos do
+    let ρ ← rhoOf (Json.mkObj [("rho", rj)])
+    match Spec.BoundText.evalText text ρ with
+    | none => return viol "not-an-expression" [("text", Json.str text)]
+    | some v =>
+      let want := Spec.BoundText.specValue x y z ρ
+      if v != want then
+        return viol "wrong-value" [("text", Json.str text), ("rho", rj), ("got", jNat v), ("want", jNat want)]
+  pure (ok Json.null)
+
+
+-- ---------------------------------------------------------------- C11
+def nodeOf (j : Json) : R DG.Node := do (← arrOf j).mapM deltaOf
+def jNode (n : DG.Node) : Json := jList jDelta n
+def jGraph (g : DG.Graph) : Json :=
+  jList (fun (sz, lvl) => Json.arr #[jNat sz,
+    jList (fun (n, adj) => Json.arr #[jNode n, jList (fun (m, l) => Json.arr #[jNode m, jNat l]) adj]) lvl]) g
+
+def dgOpOf (j : Json) : R DG.Op := do
+  match ← arrOf j with
+  | [k] => if (← strOf k) == "f" then pure .fuse else throw "bad op"
+  | [k, n] => if (← strOf k) == "i" then pure (.insert (← nodeOf n)) else throw "bad op"
+  | _ => throw "bad op"
+
+/-- run a history; report state after every op (or the error kind, after which the history stops) -/
+def dgHistory (j : Json) : R Json := do
+  let ops ← (← fArr j "ops").mapM dgOpOf
+  let mut g : DG.Graph := []
+  let mut outs : Array Json := #[]
+  for op in ops do
+    match DG.step g op with
+    | .ok g' =>
+      g := g'
+      outs := outs.push (Json.mkObj [("graph", jGraph g), ("empty", Json.bool (DG.isEmpty g))])
+    | .error e =>
+      outs := outs.push (Json.mkObj [("raised", Json.str e)])
+      break
+  pure (ok (Json.arr outs))
+
+/-- C11 predicate: given the inserted tuples and the number of indices, is every choice
+    vector in {0,1,2}^n matched by some inserted tuple?  Returns an unmatched vector if not. -/
+def checkC11 (j : Json) : R Json := do
+  let tuples ← (← fArr j "tuples").mapM nodeOf
+  let n ← fNat j "n"
+  for c in allChoices 3 n do
+    if !(tuples.any fun t => t.all fun d => c[d.2]? == some d.1) then
+      return viol "collapsed-but-valid-choice-remains" [("choice", jList jNat c)]
+  pure (ok Json.null)
+
+
+-- ---------------------------------------------------------------- C04
+def allVectors (domain : List Nat) : Nat → List (List Nat)
+  | 0 => [[]]
+  | n + 1 => domain.flatMap fun v => (allVectors domain n).map (v :: ·)
+
+def seqsOf (j : Json) : R (List Choices.Seq) := do (← arrOf j).mapM nodeOf
+def jVects (vs : List Choices.Vect) : Json := jList (jList (jList jNat)) vs
+def vectsOf (j : Json) : R (List Choices.Vect) := do
+  (← arrOf j).mapM fun v => do (← arrOf v).mapM natListOf
+
+/-- brute-force complement: vectors of domain^index matching none of the sequences -/
+def avoidSet (domain : List Nat) (index : Nat) (inf : List Choices.Seq) : List (List Nat) :=
+  (allVectors domain index).filter fun v => !(inf.any (Choices.matchesSeq · v))
+
+def choicesModel (j : Json) : R Json := do
+  let domain ← natListOf (← field j "domain"); let index ← fNat j "index"
+  let inf ← seqsOf (← field j "inf")
+  match Choices.generate domain index inf with
+  | .error e => pure (ok (Json.mkObj [("raised", Json.str e)]))
+  | .ok c =>
+    let accepted := (allVectors domain index).filter (Choices.isValid c)
+    let first := match Choices.first c with
+      | .error e => Json.mkObj [("raised", Json.str e)]
+      | .ok none => Json.null
+      | .ok (some f) => jList jNat f
+    pure (ok (Json.mkObj [("valid", jVects c.valid), ("accepted", jList (jList jNat) accepted),
+      ("infinite", Json.bool (Choices.infinite c)), ("first", first),
+      ("all", jList (jList jNat) (Choices.all c))]))
+
+def choicesIntersect (j : Json) : R Json := do
+  let domain ← natListOf (← field j "domain"); let index ← fNat j "index"
+  let a ← vectsOf (← field j "a"); let b ← vectsOf (← field j "b")
+  let c := Choices.intersection (Choices.mk a index) (Choices.mk b index)
+  pure (ok (Json.mkObj [("valid", jVects c.valid),
+    ("accepted", jList (jList jNat) ((allVectors domain index).filter (Choices.isValid c)))]))
+
+/-- C04 predicate on implementation observations (all lists of vectors sorted by the harness). -/
+def checkC04 (j : Json) : R Json := do
+  let domain ← natListOf (← field j "domain"); let index ← fNat j "index"
+  let inf ← seqsOf (← field j "inf")
+  let want := avoidSet domain index inf
+  let acc ← (← fArr j "accepted").mapM natListOf
+  let alls ← (← fArr j "all").mapM natListOf
+  let infinite ← fBool j "infinite"
+  let missing := want.filter (fun v => !acc.contains v)
+  let extra := acc.filter (fun v => !want.contains v)
+  if let v :: _ := missing then return viol "valid-vector-rejected" [("vector", jList jNat v), ("by", Json.str "is_valid")]
+  if let v :: _ := extra then return viol "failing-vector-accepted" [("vector", jList jNat v), ("by", Json.str "is_valid")]
+  if let v :: _ := want.filter (fun v => !alls.contains v) then
+    return viol "valid-vector-rejected" [("vector", jList jNat v), ("by", Json.str "all")]
+  if let v :: _ := alls.filter (fun v => !want.contains v) then
+    return viol "failing-vector-accepted" [("vector", jList jNat v), ("by", Json.str "all")]
+  if infinite != want.isEmpty then
+    return viol "infinite-flag-wrong" [("infinite", Json.bool infinite), ("n_valid", jNat want.length)]
+  match fOpt j "first" with
+  | some f =>
+    let fv ← natListOf f
+    if !want.contains fv then return viol "first-not-valid" [("first", f)]
+  | none =>
+    if !want.isEmpty then return viol "first-missing" []
+  pure (ok (Json.mkObj [("n_valid", jNat want.length)]))
+
 end Ops
 
 def dispatch (op : String) (j : Json) : R Json :=
@@ -74,6 +219,14 @@ def dispatch (op : String) (j : Json) : R Json :=
   | "model.mono_prod" => Ops.monoProd j
   | "model.mono_new" => Ops.monoNew j
   | "check.C09" => Ops.checkC09 j
+  | "model.choices" => Ops.choicesModel j
+  | "model.choices_intersect" => Ops.choicesIntersect j
+  | "check.C04" => Ops.checkC04 j
+  | "model.dg_history" => Ops.dgHistory j
+  | "check.C11" => Ops.checkC11 j
+  | "model.bound_poly" => Ops.boundPolyOp j
+  | "model.bound_parse" => Ops.boundParseOp j
+  | "check.C20" => Ops.checkC20 j
   | _ => throw s!"unknown op {op}"
 
 def handle (line : String) : String :=
